@@ -1389,6 +1389,12 @@ func genC19(o *out, r *Rng) {
 		b := t.Layout(r, r.P(30))
 		o.add(Case{"LEXPAIR", []string{Hex(a), Hex(b)}})
 	}
+	// the same file saved with LF and with CRLF line ends, including line breaks INSIDE string literals (a line break in a
+	// literal and the indentation behind it become one space; a literal continued by an adjacent literal is joined with \n)
+	for _, x := range []string{"script S {\n  msgbox(\"Hello there,\n     traveller!\")\n}\n", "text T {\n  \"first\\n\"\n  \"second\n  third\"\n}\n", "text T { ascii\"a\n\n  b\" }\n",
+		"script S { msgbox(format(\"one two\n   three\")) }\n", "script S {\n foo # c\n bar // d\n baz(\"x\n\ty\")\n}\n", "text T { \"ends with break\n\" }\n", "movement M {\n walk_up\n}\n"} {
+		o.add(Case{"LEXPAIR", []string{Hex(x), Hex(strings.ReplaceAll(x, "\n", "\r\n"))}})
+	}
 	// every class at column 0 / after a multi-byte rune / at EOF
 	for _, x := range Lexemes {
 		for _, pre := range []string{"", "é ", "日本\n", "\r\n", "# c\n", "x ", "€"} {
